@@ -80,6 +80,14 @@ def contracts():
                        asserts={"for i in range(y)": ["y <= 400"]},
                        loops={"for i in range(y)": {"invariant": ["y <= 400"]},
                               "while y < 0": {"invariant": ["y >= -400", "y <= 0"], "variant": "0 - y"}}))
+    # the per-match callback of the #time formatter: total for every match text (a match of the format regex is a
+    # non-empty string; nothing else is assumed about it), calls into the letter table by assumed total contract
+    cs.append(Contract(target="parserfns:format_with_wiki_timeformat.fmt_repl", prop="C05", mode="value",
+                       params={"m": "match"}, free={"ctx": "ctx", "t": "opq"},
+                       requires=["len(m.group(0)) >= 1"],
+                       # `assert callable(v)`: excluded by the finite obligation on the letter table (checks/c05.py)
+                       raises=["AssertionError"], result="opq",
+                       callbacks={"v": "time_letter_fn"}))
     cs.append(Contract(target="core:detect_expand_template_loop", prop="C05", mode="value",
                        params={"stack": "strlist"}, raises=[], result="bool"))
     cs.append(Contract(target="parserfns:call_parser_function", prop="C05", mode="value",
@@ -112,6 +120,8 @@ def contracts():
 
 CALLBACK_CONTRACTS = {
     "user_hook": {"text": "user hook", "result": "opq", "may_raise": True},
+    "time_letter_fn": {"text": "the callables of time_fmt_map (lambdas over datetime / locale tables) are total",
+                       "result": "opq", "may_raise": False},
     "parser_function": {"text": "every value of PARSER_FUNCTIONS is one of the functions under the totality "
                                 "contract above (checked: the dict literal's values are exactly those names)",
                         "result": "str", "may_raise": False},
